@@ -46,6 +46,15 @@ HANDWRITTEN = [
     ('struct-incdec', 'struct s { int a; } x; void f(void) { x++; }\n'), ('void-cast-int', 'int f(void) { return (int)(void)0; }\n'),
     ('undef-inside-own-call', '#define F(x) x + x\nint a = F(\n#undef F\n1);\n#define G(x) x\nint b = G(\n#undef G\n#define G(y) y y\n2) G(3);\n'),
     ('define-inside-call', '#define H(x) x\nint c = H(\n#define H(x) x x\n4);\n'),
+    ('udiv-zero-init', 'unsigned a = 5u / 0u;\n'), ('urem-zero-enum', 'enum { E = 7u % 0u };\n'), ('udiv-zero-array', 'char b[sizeof(int) / 0];\n'),
+    ('urem-zero-case', 'int f(int v) { switch (v) { case 1ul % 0: return 1; } return 0; }\n'), ('udiv-zero-bitfield', 'struct s { int a : 8u / 0u; };\n'),
+    ('udiv-zero-assert', '_Static_assert(1ull / 0ull, "");\n'), ('udiv-zero-local', 'unsigned f(void) { return 5u / 0u + 7u % 0u; }\n'),
+    ('T:va-list-braced', 'void f(void) { __builtin_va_list ap = { 0 }; }\n'), ('T:va-list-member', 'struct s { int a; __builtin_va_list ap; int b; } x = { 1, 2, 3 };\n'),
+    ('T:va-list-designated', 'struct s { int a; __builtin_va_list ap; } x = { .ap = { 0 } };\n'), ('T:va-list-empty', '__builtin_va_list g = { }; void f(void) { __builtin_va_list ap = { }; }\n'),
+    ('T:char-escapes', "int a['\\xff' > 0 ? 1 : 2]; int b = '\\377' >> 1; char c = '\\x80';\n"),
+    ('enum-incomplete-arith', 'enum e; enum e *p; int f(void) { return *p + 1; }\n'), ('enum-incomplete-switch', 'enum e; enum e *p; int f(void) { switch (*p) { default: return 0; } }\n'),
+    ('enum-incomplete-cond', 'enum e; enum e *p; int f(void) { return *p ? 1 : 2; }\n'), ('enum-incomplete-cast', 'enum e; int f(void) { return (enum e)1 == 1; }\n'),
+    ('enum-incomplete-call', 'enum e; enum e g(void); int h(int, ...); int f(void) { return h(1, g()); }\n'), ('enum-fixed-forward', 'enum e : short; enum e *p; int f(void) { return *p + !*p; }\n'),
     ('rem-overflow', 'long z = (-0x7fffffffffffffff-1) % -1;\n'), ('rem-overflow-case', 'int f(long v){ switch (v) { case (-0x7fffffffffffffffLL-1) % -1: return 1; } return 0; }\n'),
     ('rem-overflow-int', 'int z = (-0x7fffffff-1) % -1; int w = (-0x7fffffff-1) / -1; enum { E = (-0x7fffffffffffffffLL-1) % -1LL };\n'),
     ('backslash-nul-string', b'char *s = "a\\\x00b";\n'), ('backslash-nul-char', b"int c = '\\\x00';\n"), ('backslash-nul-E', b'#define S(x) #x\nchar *s = S("\\\x00");\n'),
@@ -231,6 +240,9 @@ def run(ctx):
             b = src if isinstance(src, bytes) else src.encode()
             cases.append(('hand:' + name, b, ['-t', 'x86_64-sysv'], True))
             cases.append(('hand-E:' + name, b, ['-t', 'x86_64-sysv', '-E'], True))
+            if name.startswith('T:'):          # target-dependent constructs (va_list, plain char, ...): the other targets too
+                cases.append(('hand:' + name, b, ['-t', 'aarch64'], True))
+                cases.append(('hand:' + name, b, ['-t', 'riscv64'], True))
         for data, args in corpus:
             cases.append(('corpus', data, args, True))
         nmut = 6000 if not thorough else 120000
